@@ -49,7 +49,7 @@ def worker(k, q, kind, tier, override, out):
     shutil.rmtree(vw, ignore_errors=True)
     sh('git -C /repo worktree add -q --detach %s HEAD' % rw)
     sh('rsync -a --exclude .git --exclude build/cache --exclude replays --exclude seeded --exclude benign %s/ %s/' % (VERIF, vw))
-    env = dict(os.environ, NOP_REPO=rw)
+    env = dict(os.environ, NOP_REPO=rw, VERIF_JOBS=os.environ.get('SWEEP_JOBS', '8'))
     try:
         while True:
             try:
@@ -64,11 +64,17 @@ def worker(k, q, kind, tier, override, out):
             res = {}
             try:
                 for p in props_for(kind, sid, override):
-                    rc, o = sh('python3 %s/tools/check.py %s --tier %s' % (vw, p, tier), cwd=vw, env=env)
+                    try:
+                        rc, o = sh('python3 %s/tools/check.py %s --tier %s' % (vw, p, tier), cwd=vw, env=env, timeout=10800)
+                    except subprocess.TimeoutExpired:
+                        rc, o = 124, 'TIMEOUT (rehearsal machinery, not a verdict)'
+                        sh('pkill -f %s/tools/check.py' % vw)
                     vio = [l for l in o.split('\n') if l.startswith('VIOLATION')]
                     res[p] = dict(exit=rc, violation=vio[0].replace(vw, '/verif') if vio else None, tail=o.strip().split('\n')[-1][:300],
                                   first=[l.strip()[:600] for l in o.split('\n') if l.strip().startswith('- ')][:3])
-                    print(sid, p, 'exit', rc, (vio[0][:150] if vio else 'quiet'), flush=True)
+                    print(sid, p, 'exit', rc, (vio[0][:150] if vio else ('quiet' if rc == 0 else o.strip()[-200:])), flush=True)
+                    with open('/tmp/sweep_results.jsonl', 'a') as f:
+                        f.write(json.dumps(dict(kind=kind, sid=sid, prop=p, res=res[p])) + '\n')
             finally:
                 sh('git -C %s checkout -- .' % rw)
             out[sid] = res
